@@ -417,13 +417,20 @@ class C16(Property):
     LIVE_ARGS = [[], [''], ['x'], ['a: b'], ['l1\nl2'], ['l1\n  File "q", line 3, in z\n    src\nE: y'], [3], ['a', 'b'],
                  [2, 'nope'], ['\u00e9\u65e5'], [' '], ['tail '], [None], ['x\n'], ['a\rb']]
 
+    # module names around the two the interpreter prints without prefix: substrings, superstrings, neighbours
+    MOD_NAMES = ['main', '__main', 'main__', '_main_', '__main__x', 'x__main__', '__main__.x', 'x.__main__', 'builtin',
+                 'uiltins', 'built', 'tins', 'in', 'b', '_', '__', 's', 'mainbuiltins', '__main__builtins',
+                 '__main__ builtins', 'x.builtins', 'builtins.x', 'Builtins', '__MAIN__', 'exceptions', '__builtin__',
+                 'n__b', '__main__,builtins']
+
     def random_live_case(self, big=False):
         rng = self.rng
         nm = rng.randint(1, 3)
         mods = []
         for i in range(nm):
             mods.append({'file': rng.choice(self.LIVE_FILES) % i,
-                         'name': rng.choice(['bvm%d' % i, 'pkg.bvm%d' % i, '__main__', 'builtins']),
+                         'name': rng.choice(['bvm%d' % i, 'pkg.bvm%d' % i, '__main__', 'builtins']) if rng.random() < 0.5
+                         else rng.choice(self.MOD_NAMES),
                          'reg': rng.choice(['cache', 'cache', 'loader', 'none'])})
         depth = rng.randint(0, 6) if not big else rng.randint(10, 30)
         links = []
@@ -441,11 +448,12 @@ class C16(Property):
         if kind == 'builtin':
             exc['name'] = rng.choice(self.BUILTIN_EXC)
         if kind == 'modattr':
-            exc['mod'] = rng.choice(['builtins', '__main__', 'exceptions', '__builtin__', 'x.y'])
+            exc['mod'] = rng.choice(['builtins', '__main__', 'exceptions', '__builtin__', 'x.y'] + self.MOD_NAMES)
         limit = None
         if rng.random() < 0.3:
             limit = rng.choice([0, 1, 2, 3, 5, 50])
-        return {'k': 'l', 'mods': mods, 'links': links, 'exc': exc, 'limit': limit}
+        return {'k': 'l', 'mods': mods, 'links': links, 'exc': exc, 'limit': limit,
+                'order': 'b' if rng.random() < 0.6 else 's'}
 
     @staticmethod
     def program(case):
@@ -567,64 +575,86 @@ class C16(Property):
             if ev.__cause__ is not None or ev.__context__ is not None or getattr(ev, '__notes__', None):
                 return {'skip': 'chained'}      # outside the statement
             limit = case.get('limit')
-            # --- the interpreter's view (traceback module), the oracle's reference
-            ex = traceback.extract_tb(tb)
-            obs['std_frames'] = [[f.filename, f.lineno, f.name, f.line or ''] for f in ex]
-            exl = traceback.extract_tb(tb, limit=limit)
-            obs['std_lim_n'] = len(exl)
-            obs['std_lim_frames'] = [[f.filename, f.lineno, f.name, f.line or ''] for f in exl]
-            chunks = traceback.format_exception(et, ev, tb)
-            only = traceback.format_exception_only(et, ev)
-            assert chunks[0] == HEADER + '\n' and chunks[len(chunks) - len(only):] == only
-            obs['std_full'] = ''.join(chunks)
-            obs['std'] = chunks[0] + self._strip_markers(chunks[1:len(chunks) - len(only)]) + ''.join(only)
-            obs['std_plain'] = chunks[0] + ''.join(
-                traceback.format_list([(f.filename, f.lineno, f.name, f.line) for f in [g]])[0] for g in ex) + ''.join(only)
-            obs['std_tb'] = HEADER + '\n' + self._strip_markers(traceback.format_tb(tb, limit=limit))
-            stype = et.__qualname__
-            if et.__module__ not in ('__main__', 'builtins'):
-                stype = et.__module__ + '.' + stype
-            obs['std_type'], obs['std_msg'] = stype, str(ev)
-            # --- what the interpreter hands over (model input)
-            walk = []
-            t = tb
-            while t is not None:
-                co = t.tb_frame.f_code
-                walk.append([co.co_filename, t.tb_lineno, co.co_name,
-                             linecache.getline(co.co_filename, t.tb_lineno, t.tb_frame.f_globals)])
-                t = t.tb_next
-            obs['walk'] = walk
-            # --- boltons
-            try:
-                with time_limit(10):
-                    ei = tbutils.ExceptionInfo.from_exc_info(et, ev, tb)
-                    obs['ei'] = ei.get_formatted()
-                    obs['ei_only'] = ei.get_formatted_exception_only()
-                    d = ei.to_dict()
-                    obs['ei_type'], obs['ei_msg'] = d['exc_type'], d['exc_msg']
-                    obs['ei_frames'] = [[f['module_path'], f['lineno'], f['func_name'], f['line']]
-                                        for f in d['exc_tb']['frames']]
-                    tbi = tbutils.TracebackInfo.from_traceback(tb, limit=limit)
-                    obs['tbi'] = tbi.get_formatted()
-                    obs['tbi_str'] = str(tbi)
-                    obs['tbi_frames'] = [[f['module_path'], f['lineno'], f['func_name'], f['line']]
-                                         for f in tbi.to_dict()['frames']]
-                    obs['tbi_n'] = len(tbi)
-                    buf = io.StringIO()
-                    tbutils.print_exception(et, ev, tb, file=buf)
-                    obs['print'] = buf.getvalue()
-                    for key, text in (('parsed', obs['std_full']), ('parsed_plain', obs['std_plain'])):
-                        pe = tbutils.ParsedException.from_string(text)
-                        obs[key] = {'frames': [[f.get('filepath'), f.get('lineno'), f.get('funcname'),
-                                                f.get('source_line')] for f in pe.frames],
-                                    'type': pe.exc_type, 'msg': pe.exc_msg, 'str': pe.to_string()}
-            except CaseTimeout:
-                obs['exc'] = 'CaseTimeout'
-            except Exception as e:
-                obs['exc'] = exc_name(e)
+
+            def do_std():
+                # --- the interpreter's view (traceback module), the oracle's reference
+                ex = traceback.extract_tb(tb)
+                obs['std_frames'] = [[f.filename, f.lineno, f.name, f.line or ''] for f in ex]
+                exl = traceback.extract_tb(tb, limit=limit)
+                obs['std_lim_n'] = len(exl)
+                obs['std_lim_frames'] = [[f.filename, f.lineno, f.name, f.line or ''] for f in exl]
+                chunks = traceback.format_exception(et, ev, tb)
+                only = traceback.format_exception_only(et, ev)
+                assert chunks[0] == HEADER + '\n' and chunks[len(chunks) - len(only):] == only
+                obs['std_full'] = ''.join(chunks)
+                obs['std'] = chunks[0] + self._strip_markers(chunks[1:len(chunks) - len(only)]) + ''.join(only)
+                obs['std_plain'] = chunks[0] + ''.join(
+                    traceback.format_list([(f.filename, f.lineno, f.name, f.line) for f in [g]])[0] for g in ex) + ''.join(only)
+                obs['std_tb'] = HEADER + '\n' + self._strip_markers(traceback.format_tb(tb, limit=limit))
+                stype = et.__qualname__
+                if et.__module__ not in ('__main__', 'builtins'):
+                    stype = et.__module__ + '.' + stype
+                obs['std_type'], obs['std_msg'] = stype, str(ev)
+                # --- what the interpreter hands over (model input)
+                walk = []
+                t = tb
+                while t is not None:
+                    co = t.tb_frame.f_code
+                    walk.append([co.co_filename, t.tb_lineno, co.co_name,
+                                 linecache.getline(co.co_filename, t.tb_lineno, t.tb_frame.f_globals)])
+                    t = t.tb_next
+                obs['walk'] = walk
+
+            def do_boltons():
+                try:
+                    with time_limit(10):
+                        ei = tbutils.ExceptionInfo.from_exc_info(et, ev, tb)
+                        obs['ei'] = ei.get_formatted()
+                        obs['ei_only'] = ei.get_formatted_exception_only()
+                        d = ei.to_dict()
+                        obs['ei_type'], obs['ei_msg'] = d['exc_type'], d['exc_msg']
+                        obs['ei_frames'] = [[f['module_path'], f['lineno'], f['func_name'], f['line']]
+                                            for f in d['exc_tb']['frames']]
+                        tbi = tbutils.TracebackInfo.from_traceback(tb, limit=limit)
+                        obs['tbi'] = tbi.get_formatted()
+                        obs['tbi_str'] = str(tbi)
+                        obs['tbi_frames'] = [[f['module_path'], f['lineno'], f['func_name'], f['line']]
+                                             for f in tbi.to_dict()['frames']]
+                        obs['tbi_n'] = len(tbi)
+                        buf = io.StringIO()
+                        tbutils.print_exception(et, ev, tb, file=buf)
+                        obs['print'] = buf.getvalue()
+                except CaseTimeout:
+                    obs['exc'] = 'CaseTimeout'
+                except Exception as e:
+                    obs['exc'] = exc_name(e)
+
+            if case.get('order', 'b') == 'b':
+                # boltons is asked first, as in a program that only uses boltons: nothing has primed linecache
+                # for sources that are reachable only through the module's __loader__
+                for m in case['mods']:
+                    if m['reg'] != 'cache':
+                        linecache.cache.pop(m['file'], None)
+                do_boltons()
+                do_std()
+            else:
+                do_std()
+                do_boltons()
+            if 'exc' not in obs:
+                try:
+                    with time_limit(10):
+                        for key, text in (('parsed', obs['std_full']), ('parsed_plain', obs['std_plain'])):
+                            pe = tbutils.ParsedException.from_string(text)
+                            obs[key] = {'frames': [[f.get('filepath'), f.get('lineno'), f.get('funcname'),
+                                                    f.get('source_line')] for f in pe.frames],
+                                        'type': pe.exc_type, 'msg': pe.exc_msg, 'str': pe.to_string()}
+                except CaseTimeout:
+                    obs['exc'] = 'CaseTimeout'
+                except Exception as e:
+                    obs['exc'] = exc_name(e)
             return obs
         finally:
-            info = et = ev = tb = t = None
+            info = et = ev = tb = None
             for f in registered:
                 linecache.cache.pop(f, None)
 
